@@ -1,4 +1,5 @@
 ENGINES = [
+    {"name": "csem", "path": "vf/csem + vf/amach.py", "serves_properties": ["C02", "C03", "C04", "C06", "C10", "C17"], "kind_free_text": "deductive verification of the emitted C per program: parser + symbolic executor for the emitted C subset, abstract machine over the DFA as specification, obligations discharged by z3"},
     {"name": "pyvc", "path": "vf/pyvc", "serves_properties": ["C19"], "kind_free_text": "VC generator: predicated symbolic interpreter over the real AST of /repo/nmfu.py (re-read every run) + z3 (cvc5 for unknowns); sidecar contracts"},
 ]
 NOT_APPLICABLE = {
@@ -11,4 +12,28 @@ CLAIMS = {
         "text": "Post-conditions (consistency of implies/exclusive, override precedence, cumulative levels, explicit conflicts are errors, order independence, reset) proved for every -O level and every assignment of on/off/absent to all flags; finite flag universe, no bound. Counter-models are turned into command lines and replayed on the real function.",
         "note": "trusted: pyvc's semantics of the Python subset; z3. Token-level option parsing (the loop before the resolution tail) is outside the proved slice and reported as such in the evidence.",
     },
+    "C06": {"engine": "csem", "category": "translation_validation",
+        "technique": "contract-based deductive verification of the emitted C: the compiled DFA is the contract of every case block; obligations per state x byte class x symbolic data discharged by z3",
+        "text": "Every obligation generated from the C text that the real generator emits for a program is discharged for all inputs and data states; the set of programs (corpus + generated) x option sets is finite, so the quantifier over programs is bounded and reported as such.",
+        "note": "trusted: csem's semantics of the emitted C subset, the abstract machine (spec), z3; + - * as ring operations, other C operators uninterpreted but identical on both sides"},
+    "C02": {"engine": "csem", "category": "proof",
+        "technique": "contract-based deductive verification of the emitted feed(): label/state coherence, dispatch preconditions and yield/advance obligations discharged by z3 per program; chunking independence follows by induction on cuts",
+        "text": "Proof per emitted program (all inputs, all data states, all chunkings of that parser); bounded over programs x option sets.",
+        "note": "trusted: csem C semantics, z3; the code-independent induction lemma (cuts only happen at return-OK sites, where start==end and state is stored) is stated in DESIGN.md, not machine-checked"},
+    "C03": {"engine": "csem", "category": "proof",
+        "technique": "contract-based deductive verification: inductive memory invariant + per-access safety obligations on emitted start/feed/end/free, discharged by z3",
+        "text": "Proof per emitted program and storage option set for all inputs; bounded over programs x option sets.",
+        "note": "trusted: csem C semantics (malloc never fails, memcpy/free per ISO C), z3. Unsafe indexing mode is verified only under its documented in-range precondition (thorough tier)."},
+    "C10": {"engine": "csem", "category": "proof",
+        "technique": "contract-based deductive verification: protocol obligations at every return site of emitted feed/end, discharged by z3",
+        "text": "Proof per emitted program; bounded over programs x option sets. One recorded finding (F-10b).",
+        "note": "trusted: csem C semantics, z3"},
+    "C17": {"engine": "csem", "category": "proof",
+        "technique": "contract-based deductive verification: emitted end() against the abstract machine's end-of-input step, per state, discharged by z3",
+        "text": "Proof per emitted program with EOF support; bounded over programs x option sets.",
+        "note": "trusted: csem C semantics, abstract machine, z3. That data patterns never list End is checked at DFA level under C07 (not here)."},
+    "C04": {"engine": "csem", "category": "proof",
+        "technique": "contract-based deductive verification: cycle-infeasibility / ranking obligations on the non-consuming moves of emitted feed/end, discharged by z3; recurrence counterexamples replayed on the compiled C",
+        "text": "Per emitted program, all (state, byte, data) triples; bounded over programs. Soundness of the compile-time rejection (_verify_fallthrough_loop) for all programs is NOT proved; it is exercised through the accepted programs only.",
+        "note": "trusted: csem C semantics, z3; termination of hooks assumed"},
 }
